@@ -9,7 +9,7 @@ impl<T: std::cmp::PartialEq> Vector<T> {
         let index = self.vec.iter().position( |x| *x == value );
         match index {
             Some(index) => return index,
-            None => self.size() - 1, // If not found return last index
+            None => self.size().saturating_sub( 1 ), // If not found return last index (0 for an empty vector)
         }
     }
 }
